@@ -108,21 +108,25 @@ Qed.
 (* ---------- transfer up to a relation ---------- *)
 Section Transfer.
 Variables (g g' : sgraph) (keep : nat -> Prop) (R : A -> A -> Prop).
-Hypothesis Hlabel : forall x, keep x -> sg_label g' x = sg_label g x.
+(* a kept node keeps its label, or becomes a leaf whose value is R-related to every old value *)
+Hypothesis Hlabel : forall x, keep x -> sg_label g' x = sg_label g x \/
+  (exists t', sg_label g' x = Some t' /\ is_gate t' = false /\ forall v, GF g x v -> R (h t' []) v).
 Hypothesis Hleaf : forall t, is_gate t = false -> R (h t []) (h t []).
-Hypothesis Hkids : forall x t vs, keep x -> sg_label g x = Some t -> is_gate t = true ->
+Hypothesis Hkids : forall x t vs, keep x -> sg_label g' x = Some t -> sg_label g x = Some t -> is_gate t = true ->
   Forall2 (fun c v => GF g c v /\ (keep c -> exists v', GF g' c v' /\ R v' v)) (sg_out g x) vs ->
   exists vs', Forall2 (GF g') (sg_out g' x) vs' /\ R (h t vs') (h t vs).
 
 Lemma gf_transfer_fuel : forall f x v, keep x -> gfold f g x = Some v -> exists v', GF g' x v' /\ R v' v.
 Proof.
-  induction f as [|f IH]; intros x v Hk H; [discriminate|]. cbn [gfold] in H.
-  pose proof (Hlabel x Hk) as Hl'.
+  induction f as [|f IH]; intros x v Hk H; [discriminate|].
+  destruct (Hlabel x Hk) as [Hl'|[t' [Hl' [Ht' HR]]]].
+  2:{ exists (h t' []). split; [now apply GF_leaf|]. apply HR. now exists (S f). }
+  cbn [gfold] in H.
   destruct (sg_label g x) as [t|] eqn:Hl; [|discriminate].
   destruct (is_gate t) eqn:Ht.
   - destruct (map_opt _ _) as [vs|] eqn:E; [|discriminate]. injection H as <-.
     apply map_opt_Forall2_iff in E.
-    destruct (Hkids x t vs Hk Hl Ht) as [vs' [H1 H2]].
+    destruct (Hkids x t vs Hk Hl' Hl Ht) as [vs' [H1 H2]].
     { eapply Forall2_impl; [|exact E]. intros c vc Hc. split; [now exists f|]. intros Hkc. now apply IH. }
     exists (h t vs'). split; [now apply (GF_gate g' x t)|exact H2].
   - injection H as <-. exists (h t []). split; [now apply GF_leaf|now apply Hleaf].
